@@ -217,17 +217,23 @@ def fillDefaults (E : Ext) (called : Bool) : List FieldInfo → List (String × 
       | some d => fillDefaults E called fs (vals ++ [(f.name, d)])
       | none => none
 
+/-- The set-record in canonical (field) order: the names of the fields that occur in `set`. -/
+def canonSet (info : PaneInfo) (set : List String) : List String :=
+  (info.fields.filter fun f => set.contains f.name).map (·.name)
+
 /-- Canonical instance: attribute values in field order, set-record in field order. -/
 def mkObj (info : PaneInfo) (vals : List (String × Val)) (set : List String) : Val :=
   .obj info.name
     (info.fields.filterMap fun f => (vals.find? (·.1 == f.name)).map fun p => (f.name, p.2))
-    ((info.fields.filter fun f => set.contains f.name).map (·.name))
+    (canonSet info set)
 
-/-- Run `__post_init__` (if any) on freshly stored attributes. -/
-def runHook (E : Ext) (info : PaneInfo) (vals : List (String × Val)) : Except Exc (List (String × Val)) :=
+/-- Run `__post_init__` (if any) on freshly stored attributes; the hook also sees the record of set
+fields, already exact (the same `set` the caller hands to `mkObj` afterwards). -/
+def runHook (E : Ext) (info : PaneInfo) (vals : List (String × Val)) (set : List String) :
+    Except Exc (List (String × Val)) :=
   match info.hook with
   | none => .ok vals
-  | some h => E.hook h vals
+  | some h => E.hook h vals (canonSet info set)
 
 def structLoop (info : PaneInfo) (fs : List (Val → Outcome Val)) :
     List (Val × Val) → List (String × Val) → Outcome (List (String × Val))
@@ -252,7 +258,7 @@ def paneTryStruct (E : Ext) (info : PaneInfo) (fs : List (Val → Outcome Val)) 
     match fillDefaults E (Facts.structDefaultCalled == some true) info.fields vals with
     | none => .interrupt
     | some all =>
-      match guardTry (Facts.catches .paneStructHookTry) (runHook E info all) with
+      match guardTry (Facts.catches .paneStructHookTry) (runHook E info all set) with
       | .ok final => .ok (mkObj info final set)
       | .interrupt => .interrupt
       | .leak e => .leak e
@@ -269,7 +275,7 @@ def makeUncheckedPos (E : Ext) (info : PaneInfo) (vals : List Val) : Except Exc 
   match fillDefaults E true info.fields supplied with
   | none => .error { cls := .typeError, msg := "TypeError: missing a required argument" }
   | some all =>
-    match runHook E info all with
+    match runHook E info all (supplied.map (·.1)) with
     | .ok final => .ok (mkObj info final (supplied.map (·.1)))
     | .error e => .error e
 
